@@ -17,8 +17,11 @@ Min(a, b) == IF a < b THEN a ELSE b
 \* the payload: n bytes that make any loss, duplication or misplacement of a byte visible
 Payload(n) == [i \in 1..n |-> ((i * 7 + (i \div 251) * 3) % 251) + 1]
 LE32(n) == <<n % 256, (n \div 256) % 256, (n \div 65536) % 256, (n \div 16777216) % 256>>
-PrefixLen(proto) == IF proto = "xfer" THEN 4 ELSE 0
-Wire(proto, n) == IF proto = "xfer" THEN LE32(n) \o Payload(n) ELSE Payload(n)
+\* "xferTurbo": the Xfer receiver in its ack-ahead mode (it acknowledges pieces before they arrive); wire image and law are
+\* those of "xfer" -- acknowledged is not received
+IsXfer(proto) == proto \in {"xfer", "xferTurbo"}
+PrefixLen(proto) == IF IsXfer(proto) THEN 4 ELSE 0
+Wire(proto, n) == IF IsXfer(proto) THEN LE32(n) \o Payload(n) ELSE Payload(n)
 WireLen(proto, n) == PrefixLen(proto) + n
 \* an empty wire image still needs one (empty, end-marked) piece
 NumChunks(len, C) == IF len = 0 THEN 1 ELSE (len + C - 1) \div C
@@ -67,7 +70,7 @@ ChunkingLaw == LET w == Wire(proto, n) cs == Chunks(w, C) IN
     /\ Len(cs) = N /\ N >= 1
     /\ \A k \in 1..Len(cs) : Len(cs[k]) <= C /\ (k < Len(cs) => Len(cs[k]) = C)
     /\ (Len(w) > 0 => Len(cs[Len(cs)]) > 0)
-PrefixLaw == proto = "xfer" => SubSeq(Piece(0), 1, 4) = LE32(n)
+PrefixLaw == IsXfer(proto) => SubSeq(Piece(0), 1, 4) = LE32(n)
 \* completes exactly when all pieces up to the end-marked one have arrived
 DoneIffComplete == done <=> Complete(got)
 \* ... and then reassembles to exactly the payload
